@@ -23,6 +23,7 @@ func init() {
 		},
 		Run: runC25,
 		Controls: []Control{
+			{Name: "unregister-runs-a-callback-under-the-registry-lock", File: "routingtable/client_manager.go", Old: "func (c *ClientManager) _unregister(client RouteTableClient) bool {\n", New: "func (c *ClientManager) UnregisterWith(client RouteTableClient, withdraw func()) bool {\n\tc.mu.Lock()\n\tdefer c.mu.Unlock()\n\tif !c._unregister(client) {\n\t\treturn false\n\t}\n\twithdraw()\n\treturn true\n}\n\nfunc (c *ClientManager) _unregister(client RouteTableClient) bool {\n", Expect: "no-callback-under-lock"},
 			{Name: "connector-waits-for-a-reader-that-does-not-exist", File: "protocols/bgp/server/fsm.go", Old: "\t\t\t\tcase fsm.conErrCh <- err:\n\t\t\t\t\tcontinue\n\t\t\t\tcase <-time.NewTimer(time.Second * 30).C:\n\t\t\t\t\tcontinue\n", New: "\t\t\t\tcase fsm.conErrCh <- err:\n\t\t\t\t\tcontinue\n\t\t\t\tcase <-ctx.Done():\n\t\t\t\t\treturn\n", Expect: "send-has-a-taker"},
 			{Name: "receiver-parks-on-the-failure-channel", File: "protocols/bgp/server/fsm.go", Old: "\t\t\tselect {\n\t\t\tcase fsm.msgRecvFailCh <- err:\n\t\t\tdefault:\n\t\t\t}\n", New: "\t\t\tfsm.msgRecvFailCh <- err\n", Expect: "send-has-a-taker"},
 			{Name: "sender-loop-gives-up-on-a-write-error", File: "protocols/bgp/server/update_sender.go", Old: "\t\t\tu.sendUpdates(pathAttrs, updatesPrefixes, pathID)\n\t\t\tu.sendMu.Unlock()\n", New: "\t\t\tu.sendUpdates(pathAttrs, updatesPrefixes, pathID)\n\t\t\tu.sendMu.Unlock()\n\t\t\tif u.fsm.con == nil {\n\t\t\t\tu.wg.Done()\n\t\t\t\treturn\n\t\t\t}\n", Expect: "stop-request-taker-stays"},
@@ -55,6 +56,7 @@ func runC25(c *core.Ctx) {
 func lockRules(c *core.Ctx, scope func(*core.Fn) bool, floorFns int) (reentrySites int) {
 	p := c.P
 	lp := core.BuildLockProg(p, scope)
+	noCallbackUnderLock(c, lp)
 	nLock := 0
 	for _, f := range lp.Fns {
 		if lp.Sets[f] != nil {
